@@ -33,8 +33,9 @@ NoLimit == -1
               st     "pre"   send_request called, not yet returned
                      "open"  handed over (request id known), no terminal event yet
                      "resp" / "fail"  terminal event seen
-                     "void"  never handed over (send_request returned an error) or the
-                             issuing node was dropped - no obligation
+                     "void"  never handed over (send_request returned an error) - no obligation
+                     "orphan" the issuing node was dropped before a terminal event - no
+                             obligation, but the request may still reach its responder
               canc   the user cancelled it
               seen   the responder's user was shown this request
               ansd, ans  the responder's user supplied a response with digest ans
@@ -138,7 +139,7 @@ MonReject(M, o, irid) ==
 \* node o is dropped: its users observe nothing any more, its own requests carry no obligation
 MonKill(M, o) ==
   [M EXCEPT !.dead = @ \cup {o},
-            !.req = [k \in DOMAIN @ |-> IF @[k].o = o /\ @[k].st \in {"pre", "open"} THEN [@[k] EXCEPT !.st = "void"] ELSE @[k]],
+            !.req = [k \in DOMAIN @ |-> IF @[k].o = o /\ @[k].st \in {"pre", "open"} THEN [@[k] EXCEPT !.st = "orphan"] ELSE @[k]],
             !.inb = [k \in DOMAIN @ |-> IF k[1] = o THEN [@[k] EXCEPT !.open = FALSE] ELSE @[k]]]
 
 \* requests that were handed over, not cancelled, and have no terminal event
